@@ -36,4 +36,12 @@ m = {
     "notes": "See DESIGN.md. Every check rebuilds the harness against /repo's working tree, regenerates fact tables, rebuilds the Lean theorems that depend on them, audits axioms, then runs the differential correspondence and the spec oracle.",
 }
 json.dump(m, open(os.path.join(V, "MANIFEST.json"), "w"), indent=1)
+# root module of the Lean library: everything a fresh `lake build` must build
+mods = ["AvroModel.Audit"]
+for pid in ids:
+    if pid in PROPS:
+        for m in PROPS[pid]["lean_modules"]:
+            if m not in mods:
+                mods.append(m)
+open(os.path.join(V, "lean", "AvroModel.lean"), "w").write("".join(f"import {m}\n" for m in mods))
 print("checks:", [c["property_id"] for c in checks])
